@@ -259,6 +259,71 @@ def run(prog: Program, chk: Check) -> None:
                         chk.add("W6", u, f"{norm(x.func)}(...)", False,
                                 "bulk attribute update may overwrite the flag", x)
 
+    # ---------------------------------------------------------------- W7
+    chk.rule("W7", "a file-backed process tensor that is being written is closed (which clears "
+             "the flag) only on the normal path: not in a finally/except clause, not through a "
+             "`with` block and not from __del__/__exit__", floor=1)
+    n7 = 0
+    for u in prog.units.values():
+        if isinstance(u.node, ast.Lambda):
+            continue
+        ctor_nodes = {}
+        closes = []
+        for st in walk_local(u.node):
+            if isinstance(st, ast.Assign) and isinstance(st.value, ast.Call) and \
+                    call_name(st.value) == "FileProcessTensor":
+                modes = [k.value for k in st.value.keywords if k.arg == "mode"] or st.value.args[:1]
+                if modes and isinstance(modes[0], ast.Constant) and modes[0].value == "read":
+                    continue
+                for t in st.targets:
+                    if isinstance(t, ast.Name):
+                        ctor_nodes[t.id] = st
+            if isinstance(st, ast.With):
+                for it in st.items:
+                    if isinstance(it.context_expr, ast.Call) and \
+                            call_name(it.context_expr) == "FileProcessTensor":
+                        n7 += 1
+                        chk.add("W7", u, "with FileProcessTensor(...)", False,
+                                "a context manager closes the file - and clears the flag - also "
+                                "when the body raised half-way", st)
+        if not ctor_nodes:
+            continue
+        g7 = CFG(u.node, exc_edges=True)
+        for name, st in ctor_nodes.items():
+            start = [n.id for n in g7.nodes if n.ast is st]
+            close_nodes = [n.id for n in g7.nodes
+                           if any(method_call(c) == (name, "close") for c in n.calls())]
+            n7 += 1
+            if not close_nodes:
+                chk.add("W7", u, f"{name} = FileProcessTensor(<write>)", True,
+                        "never closed here (left to the caller)", st)
+                continue
+            bad = [n for n in close_nodes if g7.nodes[n].copy_of.startswith("finally[raise]")
+                   or g7.nodes[n].copy_of.startswith("finally[return]") and False]
+            handler_close = False
+            for n in close_nodes:
+                # reachable from an exception handler head?
+                hs = [h.id for h in g7.nodes if h.kind == "handler"]
+                if hs and g7.find_path(hs, lambda x, n=n: x == n) is not None:
+                    handler_close = True
+            ok = not bad and not handler_close
+            chk.add("W7", u, f"{name}.close() only on the normal path", ok,
+                    "" if ok else "the file is closed (flag cleared) on an exceptional path: an "
+                    "export that failed half-way looks complete to a later reader", st)
+    fp = prog.cls(CLS)
+    for special in ("__del__", "__exit__"):
+        mu = fp.methods.get(special)
+        if mu is not None:
+            calls_close = any(isinstance(c, ast.Call) and method_call(c) == ("self", "close")
+                              for c in walk_local(mu.node))
+            n7 += 1
+            chk.add("W7", mu, f"FileProcessTensor.{special}", not calls_close,
+                    "" if not calls_close else
+                    f"{special} closes the file and clears the flag during exception unwinding / "
+                    f"garbage collection", mu.node)
+    if n7 < 1:
+        raise AnalysisError("W7: no writer of a FileProcessTensor found (anchor export vanished)")
+
     # ---------------------------------------------------------------- W4
     chk.rule("W4", "open-mode table: read=>(write F, overwrite F)=>'r'; write=>(T,F)=>'x'; "
              "overwrite=>(T,T)=>'w'; no other writable open in the package", floor=6)
